@@ -25,6 +25,7 @@ import xml.etree.ElementTree as ET  # noqa: S405  (bundled, trusted schema files
 from engine.cfg import call_name
 from engine.errors import AnalysisError
 from engine.repo import walk_no_nested
+from engine.cfg import cfg_of
 from engine.util import calls_in, unparse, xsrc
 
 ID = 'C05'
@@ -447,6 +448,18 @@ def run(ctx):  # noqa: C901, PLR0912, PLR0915
     from . import common
     common.implied_value_only_for_none(ctx, 'C05.R2')
     common.readers_catch_only_absence(ctx, 'C05.R2')
+    dq = repo.func('sdc11073.namespaces.docname_from_qname')
+    gdq = cfg_of(dq)
+    rets_none = [r for r in gdq.nodes if r.kind == 'return' and any(p is True and t.endswith(' is None') for t, p in gdq.facts_at(r).both())]
+    ok_dq = bool(rets_none) and all(isinstance(r.stmt.value, ast.Attribute) and r.stmt.value.attr == 'localname' for r in rets_none)
+    ctx.ob('C05.R4', 'a name whose namespace has no prefix in the map is written bare', ok_dq,
+           'docname_from_qname writes the local name when the namespace is bound as default namespace (no prefix)' if ok_dq else
+           'docname_from_qname invents a prefix for a namespace that the map binds without one (the default namespace): xsi:type="dom:X" '
+           'is written into a document that does not declare `dom` - not schema-valid, and unreadable (KeyError) on the way back',
+           fi=dq)
+    common.writers_omit_only_none(ctx, 'C05.R2')
+    ctx.borrow('C18', {'C18.R1', 'C18.R2'}, 'C05.R2', contains=['imestamp'], why='timestamps survive the round trip')
+    common.readers_test_only_for_none(ctx, 'C05.R2')
     common.qnames_resolved_in_their_own_scope(ctx, 'C05.R5')
     ctx.borrow('C18', {'C18.R4'}, 'C05.R2', contains=['boolean: 1 and true', 'enum literals', 'integer lexical'], why='legal lexical forms are read as the value they denote')
     from .c18 import decimal_lexical_rules
@@ -461,7 +474,6 @@ def run(ctx):  # noqa: C901, PLR0912, PLR0915
     # ------------------------------------------------------------------ R5 readers
     ctx.rule('C05.R5', 'readers: the class of a polymorphic element is resolved from THAT element; a scalar member that is '
                        'absent in the XML overwrites what the instance held')
-    from engine.cfg import cfg_of
     n_vc = 0
     for q in sorted(desc):
         rd = repo.classes[q].methods.get('get_py_value_from_node')
